@@ -56,13 +56,24 @@ def payload(kind, rng, ident):
             if i % 5 == 4:
                 steps.append({"op": "sleep", "ms": 130})
         return steps, data
+    if kind == "big_incompressible":
+        # several zstd blocks of data that does not compress: exercises partial writes of the encoder
+        n = rng.choice([200 * 1024, 700 * 1024, 2 * 1024 * 1024])
+        raw = rng.randbytes(n * 3 // 4)
+        import base64 as _b
+        text = _b.b64encode(raw)
+        data = b"\n".join(text[i:i + 4000] for i in range(0, len(text), 4000)) + b"\n"
+        return [chunk(data[i:i + 65536]) for i in range(0, len(data), 65536)], data
+    if kind == "big_binary_one_line":
+        data = rng.randbytes(rng.choice([150 * 1024, 400 * 1024])).replace(b"\n", b"\x00") + b"\n"
+        return [chunk(data[i:i + 65536]) for i in range(0, len(data), 65536)], data
     if kind == "empty":
         return [], b""
     raise ValueError(kind)
 
 
 KINDS = ["text", "no_trailing_newline", "pause_mid_line", "pause_mid_line_twice", "binary", "long_line", "many_short",
-         "byte_at_a_time", "empty"]
+         "byte_at_a_time", "empty", "big_incompressible", "big_binary_one_line"]
 
 
 def e2e_scenario(bins, idx, ntargets, rng, kinds=None):
@@ -184,6 +195,8 @@ def run(pid, tier):
         rr = random.Random(chk.seed * 101 + i)
         if i == 0:
             return e2e_scenario(bins, i, 3, rr, kinds=["pause_mid_line", "pause_mid_line_twice", "byte_at_a_time"])
+        if i == 1:
+            return e2e_scenario(bins, i, 2, rr, kinds=["big_incompressible", "big_binary_one_line", "no_trailing_newline"])
         return e2e_scenario(bins, i, sizes[i % len(sizes)], rr)
     with ThreadPoolExecutor(max_workers=6) as ex:
         e2e = list(ex.map(one, range(ne)))
